@@ -3022,9 +3022,24 @@ func (p *wat2X64Worker) buildFunc_ins(
 		sp1 := p.fnWasmR0Base - 8*stk.Pop(token.F32) - 8
 		ret0 := p.fnWasmR0Base - 8*stk.Push(token.F32) - 8
 
+		// NaN 操作数的结果是 NaN, -0 小于 +0: minss 两种情况都只返回第二个操作数
+		labelSuffix := p.genNextId()
+		labelNaN := p.makeLabelId(kLabelPrefixName_else, "", labelSuffix)
+		labelEnd := p.makeLabelId(kLabelPrefixName_end, "", labelSuffix)
+
 		fmt.Fprintf(w, "    # f32.min\n")
 		fmt.Fprintf(w, "    movss xmm4, dword ptr [rbp%+d]\n", sp1)
-		fmt.Fprintf(w, "    minss xmm4, dword ptr [rbp%+d]\n", sp0)
+		fmt.Fprintf(w, "    movss xmm5, dword ptr [rbp%+d]\n", sp0)
+		fmt.Fprintf(w, "    ucomiss xmm4, xmm5\n")
+		fmt.Fprintf(w, "    jp   %s # NaN\n", labelNaN)
+		fmt.Fprintf(w, "    movaps xmm6, xmm5\n")
+		fmt.Fprintf(w, "    minss xmm6, xmm4\n")
+		fmt.Fprintf(w, "    minss xmm4, xmm5\n")
+		fmt.Fprintf(w, "    orps xmm4, xmm6 # +0/-0\n")
+		fmt.Fprintf(w, "    jmp  %s\n", labelEnd)
+		p.gasFuncLabel(w, labelNaN)
+		fmt.Fprintf(w, "    addss xmm4, xmm5\n")
+		p.gasFuncLabel(w, labelEnd)
 		fmt.Fprintf(w, "    movss dword ptr [rbp%+d], xmm4\n", ret0)
 		fmt.Fprintln(w)
 
@@ -3033,9 +3048,24 @@ func (p *wat2X64Worker) buildFunc_ins(
 		sp1 := p.fnWasmR0Base - 8*stk.Pop(token.F32) - 8
 		ret0 := p.fnWasmR0Base - 8*stk.Push(token.F32) - 8
 
+		// NaN 操作数的结果是 NaN, -0 小于 +0: maxss 两种情况都只返回第二个操作数
+		labelSuffix := p.genNextId()
+		labelNaN := p.makeLabelId(kLabelPrefixName_else, "", labelSuffix)
+		labelEnd := p.makeLabelId(kLabelPrefixName_end, "", labelSuffix)
+
 		fmt.Fprintf(w, "    # f32.max\n")
 		fmt.Fprintf(w, "    movss xmm4, dword ptr [rbp%+d]\n", sp1)
-		fmt.Fprintf(w, "    maxss xmm4, dword ptr [rbp%+d]\n", sp0)
+		fmt.Fprintf(w, "    movss xmm5, dword ptr [rbp%+d]\n", sp0)
+		fmt.Fprintf(w, "    ucomiss xmm4, xmm5\n")
+		fmt.Fprintf(w, "    jp   %s # NaN\n", labelNaN)
+		fmt.Fprintf(w, "    movaps xmm6, xmm5\n")
+		fmt.Fprintf(w, "    maxss xmm6, xmm4\n")
+		fmt.Fprintf(w, "    maxss xmm4, xmm5\n")
+		fmt.Fprintf(w, "    andps xmm4, xmm6 # +0/-0\n")
+		fmt.Fprintf(w, "    jmp  %s\n", labelEnd)
+		p.gasFuncLabel(w, labelNaN)
+		fmt.Fprintf(w, "    addss xmm4, xmm5\n")
+		p.gasFuncLabel(w, labelEnd)
 		fmt.Fprintf(w, "    movss dword ptr [rbp%+d], xmm4\n", ret0)
 		fmt.Fprintln(w)
 
@@ -3174,9 +3204,24 @@ func (p *wat2X64Worker) buildFunc_ins(
 		sp1 := p.fnWasmR0Base - 8*stk.Pop(token.F64) - 8
 		ret0 := p.fnWasmR0Base - 8*stk.Push(token.F64) - 8
 
+		// NaN 操作数的结果是 NaN, -0 小于 +0: minsd 两种情况都只返回第二个操作数
+		labelSuffix := p.genNextId()
+		labelNaN := p.makeLabelId(kLabelPrefixName_else, "", labelSuffix)
+		labelEnd := p.makeLabelId(kLabelPrefixName_end, "", labelSuffix)
+
 		fmt.Fprintf(w, "    # f64.min\n")
 		fmt.Fprintf(w, "    movsd xmm4, qword ptr [rbp%+d]\n", sp1)
-		fmt.Fprintf(w, "    minsd xmm4, qword ptr [rbp%+d]\n", sp0)
+		fmt.Fprintf(w, "    movsd xmm5, qword ptr [rbp%+d]\n", sp0)
+		fmt.Fprintf(w, "    ucomisd xmm4, xmm5\n")
+		fmt.Fprintf(w, "    jp   %s # NaN\n", labelNaN)
+		fmt.Fprintf(w, "    movapd xmm6, xmm5\n")
+		fmt.Fprintf(w, "    minsd xmm6, xmm4\n")
+		fmt.Fprintf(w, "    minsd xmm4, xmm5\n")
+		fmt.Fprintf(w, "    orpd xmm4, xmm6 # +0/-0\n")
+		fmt.Fprintf(w, "    jmp  %s\n", labelEnd)
+		p.gasFuncLabel(w, labelNaN)
+		fmt.Fprintf(w, "    addsd xmm4, xmm5\n")
+		p.gasFuncLabel(w, labelEnd)
 		fmt.Fprintf(w, "    movsd qword ptr [rbp%+d], xmm4\n", ret0)
 		fmt.Fprintln(w)
 
@@ -3185,9 +3230,24 @@ func (p *wat2X64Worker) buildFunc_ins(
 		sp1 := p.fnWasmR0Base - 8*stk.Pop(token.F64) - 8
 		ret0 := p.fnWasmR0Base - 8*stk.Push(token.F64) - 8
 
+		// NaN 操作数的结果是 NaN, -0 小于 +0: maxsd 两种情况都只返回第二个操作数
+		labelSuffix := p.genNextId()
+		labelNaN := p.makeLabelId(kLabelPrefixName_else, "", labelSuffix)
+		labelEnd := p.makeLabelId(kLabelPrefixName_end, "", labelSuffix)
+
 		fmt.Fprintf(w, "    # f64.max\n")
 		fmt.Fprintf(w, "    movsd xmm4, qword ptr [rbp%+d]\n", sp1)
-		fmt.Fprintf(w, "    maxsd xmm4, qword ptr [rbp%+d]\n", sp0)
+		fmt.Fprintf(w, "    movsd xmm5, qword ptr [rbp%+d]\n", sp0)
+		fmt.Fprintf(w, "    ucomisd xmm4, xmm5\n")
+		fmt.Fprintf(w, "    jp   %s # NaN\n", labelNaN)
+		fmt.Fprintf(w, "    movapd xmm6, xmm5\n")
+		fmt.Fprintf(w, "    maxsd xmm6, xmm4\n")
+		fmt.Fprintf(w, "    maxsd xmm4, xmm5\n")
+		fmt.Fprintf(w, "    andpd xmm4, xmm6 # +0/-0\n")
+		fmt.Fprintf(w, "    jmp  %s\n", labelEnd)
+		p.gasFuncLabel(w, labelNaN)
+		fmt.Fprintf(w, "    addsd xmm4, xmm5\n")
+		p.gasFuncLabel(w, labelEnd)
 		fmt.Fprintf(w, "    movsd qword ptr [rbp%+d], xmm4\n", ret0)
 		fmt.Fprintln(w)
 
